@@ -80,6 +80,18 @@ CLAIMED = {
         'technique': 'Lean 4 proof (id-keyed lookup lemmas, sweep correctness) + differential correspondence of result meshes as id-keyed maps',
         'design': '4/C09',
     },
+    'C11': {
+        'text': 'Proof (commutative rings / ordered fields): for every volume kernel K (tet, hex linear/centroid/gaussian, pyr, prism, hexprism, '
+                'polyhedron fan/centroid) K(p+t) = K p and K(A.p) = det A . K p (rotation invariance, reflection sign, s^3 scaling in one '
+                'identity); area vectors transform with the cofactor matrix and radicands are invariant under rigid motion (s^4 under scaling, '
+                'normals rotate); all modes agree with the closed form on affine cells; C11_relabel / C11_storage_perm(_mixed) via id-lookup '
+                'lemmas; C11_brick_count / positive / sum for generate_brick. Tie: exact-rational evaluation of every kernel x mode against '
+                'the real float result (Schwartz-Zippel argument, N and grid size in the evidence) + differential id lookup / brick connectivity.',
+        'note': 'over exact fields; sqrt, float32 accumulators, the truncated Gauss constant and LAPACK are runtime (scale-relative tolerances); '
+                'polyhedron centroid kernel: translation invariance by oracle only',
+        'technique': 'Lean 4 proof (ring identities proved structurally, lookup lemmas, counting bijection) + exact-rational P-tie + metamorphic oracle',
+        'design': '4/C11',
+    },
     'C13': {
         'text': 'Proof: C13_incidence(_order1), C13_adjacency_elem/node, C13_nhop_reach (n-hop = walks of length 1..n, by induction '
                 'over Boolean matrix powers, with a refinement lemma down to the materialised arrays the driver executes), '
@@ -90,6 +102,15 @@ CLAIMED = {
                 'edge-gradient matrix / column order of e2v (scipy COO order) compared as sets; isolated vertices are outside e2v\'s theorem',
         'technique': 'Lean 4 proof (spec lemmas + induction on matrix powers + refinement) + differential correspondence of sparse matrices',
         'design': '4/C13',
+    },
+    'C14': {
+        'text': 'Proof: C14_mean_of_nodes, C14_affine_at_centroid, C14_incidence_of_mesh, C14_mean_row_stochastic, C14_constants, C14_bounds, '
+                'C14_weights_prop_size (ordered field, positive metrics, node touches an element), C14_effective_colsum, C14_effective_total '
+                'are kernel-checked over the list/Rat model of convert_nodal2elemental / convert_elemental2nodal; tied to the tree by exact-'
+                'rational evaluation against the real arrays for implicit / explicit / no weights, both modes, all widths.',
+        'note': 'ordered-field arithmetic; float error within tolerance; convert_nodal2elemental raises on meshes mixing arities (transcribed)',
+        'technique': 'Lean 4 proof (weighted-sum lemmas over Finset / lists) + exact-rational differential correspondence + law oracle',
+        'design': '4/C14',
     },
     'C15': {
         'text': 'Proof (any field): C15_const_zero (every variant of the spatial-gradient operator has zero row sums), C15_affine_exact '
